@@ -427,6 +427,10 @@ func (ex *explorer) round(starts []*State) {
 			}
 		}
 		level = nextLevel
+		if ex.stats.States > 150000 {
+			ex.undec[ex.m.Name+": more than 150000 product states (the clean tree needs under 10000)"] = true
+			break
+		}
 	}
 	for _, in := range ins {
 		for _, u := range in.undecided {
